@@ -1,6 +1,12 @@
 package revocation
 
-import "github.com/privacybydesign/gabi/big"
+import (
+	"encoding/json"
+	"errors"
+
+	"github.com/multiformats/go-multihash"
+	"github.com/privacybydesign/gabi/big"
+)
 
 func init() {
 	vpHarnesses["vpC10_O1"] = vpC10_O1
@@ -275,4 +281,139 @@ func vpC10_O5() {
 		err = fl.Verify(h.accs[against])
 		vpAssert("a flattened list verifies exactly when it has no gap and ends in the accumulator's event", (err == nil) == (against == j1 && k2 == k+1))
 	}
+}
+
+func init() {
+	vpHarnesses["vpC10_O6"] = vpC10_O6
+}
+
+// vpxWireSacc: a signed accumulator as it arrives after JSON transport (natively the real
+// encoding/json round trip, symbolically the structural copy that follows the struct tags).
+func vpxWireSacc(s *SignedAccumulator) (*SignedAccumulator, bool) {
+	bts, err := json.Marshal(s)
+	if err != nil {
+		return nil, false
+	}
+	out := &SignedAccumulator{}
+	if err := json.Unmarshal(bts, out); err != nil {
+		return nil, false
+	}
+	return out, true
+}
+
+// C10-O6: what the receiver trusts is the signature, not anything that travels next to it.
+// A signed accumulator that the sender had already verified (its plaintext cached in the
+// object) goes through JSON transport; in transit its signature is damaged, or the key
+// counter changed. The receiver's Update.Verify, Witness.Update and Witness.Verify refuse
+// it; undamaged it is accepted.
+func vpC10_O6() {
+	n := vpParam("nevents", 2)
+	h := vpBuildHistory(n)
+	upd := h.update(0, n)
+	_, err := upd.SignedAccumulator.UnmarshalVerify(h.pk) // the sender has looked at it
+	vpAssume(err == nil)
+	sacc, ok := vpxWireSacc(upd.SignedAccumulator)
+	vpAssert("a signed accumulator can be transported", ok)
+	if !ok {
+		return
+	}
+	damage := vpChoose("damage", 3)
+	switch damage {
+	case 1:
+		sacc.Data = vpxCorrupt(sacc.Data)
+	case 2:
+		sacc.PKCounter = sacc.PKCounter + 1
+	}
+	evs := make([]*Event, len(upd.Events))
+	for i, e := range upd.Events {
+		evs[i] = vpCopyEvent(e)
+	}
+	received := &Update{SignedAccumulator: sacc, Events: evs}
+	_, verr := received.Verify(h.pk)
+	wit := h.witness("E", 0, 0)
+	oldU, oldSacc := wit.U, wit.SignedAccumulator
+	uerr := wit.Update(h.pk, received)
+	w2 := &Witness{U: wit.U, E: wit.E, SignedAccumulator: sacc}
+	if damage == 0 {
+		vpAssert("the undamaged transported update is accepted", verr == nil && uerr == nil)
+		return
+	}
+	vpAssert("an update whose signed accumulator was damaged in transit is refused", verr != nil && uerr != nil)
+	vpAssert("a refused update leaves the witness unchanged", wit.U == oldU && wit.SignedAccumulator == oldSacc)
+	vpAssert("a witness carrying the damaged signed accumulator does not verify", w2.Verify(h.pk) != nil)
+}
+
+func init() {
+	vpHarnesses["vpC18_O8"] = vpC18_O8
+}
+
+// vpTransportUpdate: an update message through its JSON form. Natively the real
+// encoding/json round trip. Symbolically the transport is composed from the type's own
+// code - Update.compress, EventList.compress, EventList.uncompress, Update.uncompress -
+// around the text codec of the one hash that travels, which is taken by its contract:
+// a hash survives exactly if it is a well-formed multihash.
+func vpTransportUpdate(u *Update) (*Update, error) {
+	if vpNative() {
+		bts, err := json.Marshal(u)
+		if err != nil {
+			return nil, err
+		}
+		out := &Update{}
+		if err := json.Unmarshal(bts, out); err != nil {
+			return nil, err
+		}
+		return out, nil
+	}
+	cu := u.compress()
+	sacc := cu.SignedAccumulator
+	if sacc != nil {
+		sacc = &SignedAccumulator{Data: sacc.Data, PKCounter: sacc.PKCounter}
+	}
+	wire := &compressedUpdate{SignedAccumulator: sacc}
+	if cu.E != nil {
+		ce := cu.E.compress()
+		if _, err := multihash.Decode(ce.ParentHash); err != nil {
+			return nil, errors.New("parent hash does not survive its text encoding")
+		}
+		el := &EventList{}
+		el.uncompress(&compressedEventList{Index: ce.Index, ParentHash: append(Hash{}, ce.ParentHash...), E: ce.E})
+		wire.E = el
+	}
+	out := &Update{}
+	out.uncompress(wire)
+	return out, nil
+}
+
+// C18-O8: update messages survive JSON transport with unchanged meaning, with every
+// optional part present or absent: updates over any window of a history and updates
+// without events (signed accumulator only, nil or empty event list) are read back
+// without error and verify exactly as the original did, with the same events.
+func vpC18_O8() {
+	n := vpParam("nevents", 2)
+	h := vpBuildHistory(n)
+	i0, i1 := vpChoose("i0", n+1), vpChoose("i1", n+1)
+	vpAssume(i0 <= i1)
+	upd := h.update(i0, i1)
+	switch vpChoose("events", 3) {
+	case 1:
+		upd = &Update{SignedAccumulator: upd.SignedAccumulator}
+	case 2:
+		upd = &Update{SignedAccumulator: upd.SignedAccumulator, Events: []*Event{}}
+	}
+	_, err0 := upd.Verify(h.pk)
+	vpAssert("the update verifies before transport", err0 == nil)
+	got, err := vpTransportUpdate(upd)
+	vpAssert("an update message is read back from its own JSON form", err == nil && got != nil)
+	if err != nil || got == nil {
+		return
+	}
+	acc, err := got.Verify(h.pk)
+	vpAssert("the transported update verifies as the original did", err == nil && acc != nil && acc.Index == h.accs[i1].Index)
+	same := len(got.Events) == len(upd.Events)
+	if same {
+		for k := range got.Events {
+			same = same && got.Events[k].Index == upd.Events[k].Index && got.Events[k].E.Cmp(upd.Events[k].E) == 0
+		}
+	}
+	vpAssert("the transported update carries the same events", same)
 }
